@@ -473,7 +473,7 @@ fn run(ctx: &Ctx) {
     ctx.run_regress::<Case, _>(check);
     let p = DocParams::namespaces();
     // small trees x all skip histories
-    let nsmall = ctx.tier.pick(3000usize, 40_000);
+    let nsmall = ctx.tier.pick(6000usize, 60_000);
     let small_params = DocParams { max_depth: 3, max_children: 3, ..p.clone() };
     let docs: Vec<Doc> = sample_strategy(&doc_strategy(&small_params), ctx.seed ^ 0x05, nsmall * 3).into_iter().filter(|d| {
         let r = render(d);
@@ -557,7 +557,7 @@ fn run(ctx: &Ctx) {
         check,
     );
     let strat = move || Box::new((doc_strategy(&p), prop::collection::vec(0u8..8, 0..60), 0u8..3, 0u8..6, any::<bool>()).prop_map(|(doc, choices, source, piece, expand_empty)| Case { doc, choices, source, piece, expand_empty }));
-    ctx.run_proptest_with("documents-x-random-histories", ctx.tier.pick(150_000, 3_000_000), strat, check);
+    ctx.run_proptest_with("documents-x-random-histories", ctx.tier.pick(500_000, 5_000_000), strat, check);
 }
 
 fn replay(_stage: &str, case: &Value) -> Result<Verdict, String> {
